@@ -869,16 +869,25 @@ func phasesFor(c *mc.Ctx) []alphabet {
 		{"b", []uint64{0, 1, 2, 3}, []int{1, 2}, []int64{40}},
 		{"c", []uint64{0, 1, 3}, []int{1}, []int64{70}},
 	}
+	// tiny alphabet, long histories: repeated failed selections (grace period, sweeping),
+	// re-adding after a sweep, notifications in between
+	tiny := func(depth int) alphabet {
+		return alphabet{senders: []senderAlpha{
+			{"a", []uint64{0, 1, 2}, []int{1}, []int64{40}},
+			{"b", []uint64{1}, []int{1}, []int64{70}},
+			{"c", []uint64{1}, []int{1}, []int64{70}},
+		}, selN: []int{1, 5}, selB: []int{1, 3}, notify: []uint64{0, 1}, chunks: []uint32{1, 2}, depth: depth}
+	}
 	var phases []alphabet
 	switch {
 	case c.Prop == "C25" && c.Quick():
-		phases = []alphabet{base(6, deep25...)}
+		phases = []alphabet{base(6, deep25...), tiny(10)}
 	case c.Prop == "C25":
-		phases = []alphabet{base(8, deep25...), base(4, full("a"), full("b"), full("c"))}
+		phases = []alphabet{base(8, deep25...), base(4, full("a"), full("b"), full("c")), tiny(12)}
 	case c.Quick():
-		phases = []alphabet{base(6, small26...)}
+		phases = []alphabet{base(6, small26...), tiny(10)}
 	default:
-		phases = []alphabet{base(8, small26...), base(5, large26...)}
+		phases = []alphabet{base(8, small26...), base(5, large26...), tiny(12)}
 	}
 	if v, err := strconv.Atoi(os.Getenv("VERIF_TXC_DEPTH")); err == nil && v > 0 {
 		phases[0].depth = v // development aid: measure other depths (first phase only)
